@@ -933,7 +933,7 @@ func runC15(prop, tier string) int {
 	}
 	ntrees := 4
 	if tier == "thorough" {
-		ntrees = 80
+		ntrees = 30
 	}
 	ntrees = treesFromEnv(ntrees)
 	seed := evid.Seed()
@@ -1082,7 +1082,7 @@ func runC15(prop, tier string) int {
 			}
 			var res runner.Result
 			var order []string
-			traced := tier == "thorough" || (i+pi)%5 == 0
+			traced := (tier == "thorough" && (i+pi)%2 == 0) || (i+pi)%5 == 0
 			if traced {
 				tr := cli.Trace{LogPath: filepath.Join(work, fmt.Sprintf("c15_%02d.strace", worker))}
 				res, _, order, _ = cli.RunTraced(mq, cwd, rmArgs, tr, runner.Opts{}, root)
